@@ -1,1 +1,1003 @@
 import LenaModel.Lemmas.C11
+/-! # C11 — property theorems: SplitIntoBins runs the analysis per cell on exactly that cell's values
+
+Property (properties.jsonl, C11): *For any analysis sequence, argument variable and edges, (1) SplitIntoBins
+computes in each cell exactly what a private copy of the sequence computes from the sub-flow of values whose
+argument falls into that cell (in arrival order), (2) ignores values outside the edges, (3) and yields
+histograms over the given edges that hold those per-cell results, (4) with context.variable describing the
+argument variable.  (5) IterateBins enumerates every cell of such a histogram once with its own edges and
+context, and (6) MapBins returns a histogram of identical shape and edges whose every cell is the sequence
+applied to the corresponding cell.*
+
+All theorems are about the transcribed model `LenaModel/Model/C11.lean`, for **all** inputs:
+* the analysis is an arbitrary `Analysis σ D ρ ε` (any state type, any `fill` that may raise, any `compute`
+  generator that yields any number of results and may raise) — this covers every `FillComputeSeq` built from
+  accumulators with pre/post elements;
+* edges of any dimension over any linearly ordered type `α`, flows of any length, any argument variable
+  (its getter may raise), any in-range interpolation guess of the bin search;
+* contexts are arbitrary slot vectors (`Model/C14.lean`).
+
+Vocabulary (`Lemmas/C11.lean`): `cellAt bins p` (the cell at index path `p`), `PathIn p dims`, `route` /
+`routedTo` (the cell `fill` routes a value to), `subflow … p flow` (the values routed to cell `p`, in arrival
+order), `insideFlow`, `ctxAfter` (context of the last value inside the edges), `Trace` (what a generator
+yields and how it ends).  From `Lemmas/C06.lean`: `ValidEdges`, `dimsOf`, `InCell` (half-open cell
+membership), `GuessesOK`, `Proper`.
+
+Map sentence → theorem:
+ (1) `cell_is_subflow`, `cells_share_nothing`, `fill_one`, `fill_error_is_cells`, `route_inCell`, `subflow_halfopen`;
+ (2) `outside_ignored`, `route_outside`;
+ (3) `result_shape`, `result_count_le`, `result_count_stop`, `compute_raise`, `compute_complete`
+     (on top of `mdMapE_char`, `mdSeqMapRun_out/_stop/_raise` in `Lemmas/C11.lean`);
+ (4) `context_is_last_inside`, `result_shape` (the yielded context), `variable_in_context`, `variable_fresh`,
+     `context_frame`, `compute_context_error`;
+ (5) `iterate_bins_once`, `iterate_each_cell_once`, `iterate_all_cells`, `cell_edges_own`, `iterate_cell_context`,
+     `iterate_bins_count`, `iterate_passes`, `iterate_passes_unselected`;
+ (6) `map_bins_shape`, `map_bins_count_le`, `map_bins_passes`;
+ construction: `new_valid`, `new_rejects_edges`, `new_rejects_seq`, `new_rejects_argvar`;
+ `histogram(edges, bins)`: `mkHistogram_ok`, and the quirk `mkHistogram_nested1`. -/
+
+namespace Lena.C11
+
+open Lena
+open Lena.C06 (Edges Coord ValidEdges ValidAxis dimsOf InCell GuessesOK Proper)
+open Lena.C14 (V Slots Value getSlot setSlot emptyD key)
+
+set_option linter.unusedSectionVars false
+
+variable {α β γ σ ρ ε D ο : Type}
+
+/-! ## construction -/
+section New
+variable [LT α] [LE α] [DecidableLT α] [DecidableLE α] [DecidableEq α]
+  [Std.IsLinearOrder α] [Std.LawfulOrderLT α]
+variable (names : List String)
+
+/-- `SplitIntoBins(seq, arg_var, edges)` with valid arguments: one copy of the analysis in its initial
+state per cell, `len(axis) − 1` cells along every axis, empty `_cur_context`. -/
+theorem new_valid {edges : Edges α} (he : ValidEdges edges) (init : σ) :
+    (SIB.new names (some init) true edges : Except (Exc ε) (SIB α σ)) =
+      .ok { edges := edges, bins := NArr.full (dimsOf edges.axes) init, curContext := emptyD names.length } := by
+  have h1 : ∀ a ∈ edges.axes, a ≠ [] := by
+    intro a ha h; have := (he.2 a ha).1; simp [h] at this
+  simp [SIB.new, C06.checkEdgesIncreasing_ok he, C06.initBins_eq init _ he.1 h1, dimsOf]
+
+/-- edges that are not strictly increasing with at least two values per axis: `LenaValueError` -/
+theorem new_rejects_edges {edges : Edges α} (he : ¬ ValidEdges edges) (init : σ) :
+    (SIB.new names (some init) true edges : Except (Exc ε) (SIB α σ)) = .error .lenaValueError := by
+  simp [SIB.new, C06.checkEdgesIncreasing_err he, Exc.ofErr]
+
+/-- a `seq` that is not convertible to a `FillComputeSeq`: `LenaTypeError` (checked first) -/
+theorem new_rejects_seq (argVarOk : Bool) (edges : Edges α) :
+    (SIB.new names (none : Option σ) argVarOk edges : Except (Exc ε) (SIB α σ)) = .error .lenaTypeError := rfl
+
+/-- an `arg_var` that is not a `Variable`: `LenaTypeError` (checked before the edges) -/
+theorem new_rejects_argvar (init : σ) (edges : Edges α) :
+    (SIB.new names (some init) false edges : Except (Exc ε) (SIB α σ)) = .error .lenaTypeError := rfl
+
+/-- whatever `new` returns successfully was built from valid edges -/
+theorem new_ok_inv {seq : Option σ} {b : Bool} {edges : Edges α} {s0 : SIB α σ}
+    (h : (SIB.new names seq b edges : Except (Exc ε) (SIB α σ)) = .ok s0) :
+    ∃ init, seq = some init ∧ ValidEdges edges ∧
+      s0 = { edges := edges, bins := NArr.full (dimsOf edges.axes) init, curContext := emptyD names.length } := by
+  cases seq with
+  | none => simp [SIB.new] at h
+  | some init =>
+    cases b with
+    | false => simp [SIB.new] at h
+    | true =>
+      by_cases he : ValidEdges edges
+      · rw [new_valid names he init] at h
+        exact ⟨init, rfl, he, by simpa using h.symm⟩
+      · rw [new_rejects_edges names he init] at h
+        simp at h
+
+end New
+
+/-! ## (1), (2): `fill` -/
+section Fill
+variable [LT α] [LE α] [DecidableLT α] [DecidableLE α] [DecidableEq α]
+  [Std.IsLinearOrder α] [Std.LawfulOrderLT α]
+variable (names : List String) (an : Analysis σ D ρ ε) (av : ArgVar α D ε) (guess : Nat → Nat → Nat → Int)
+
+theorem binsLoop_length (g : Nat → Nat → Nat → Int) : ∀ (axes : List (List α)) (xs : List α) (k : Nat) (r : List Int),
+    C06.binsLoop g k xs axes = .ok r → r.length = axes.length
+  | [], _, _, r, h => by simp [C06.binsLoop] at h; simp [h]
+  | _ :: _, [], _, r, h => by simp [C06.binsLoop] at h
+  | arr :: axes, x :: xs, k, r, h => by
+    simp only [C06.binsLoop, bind, Except.bind] at h
+    cases h1 : C06.bin1d (g k) x arr with
+    | error e => simp [h1] at h
+    | ok i =>
+      cases h2 : C06.binsLoop g (k + 1) xs axes with
+      | error e => simp [h1, h2] at h
+      | ok r' =>
+        simp [h1, h2, pure, Except.pure] at h
+        subst h
+        simp [binsLoop_length g axes xs (k + 1) r' h2]
+
+/-- for valid edges, a bin index reported by `get_bin_on_value` has one component per axis -/
+theorem getBinOnValue_length {e : Edges α} (he : ValidEdges e) (x : Coord α) (idx : List Int)
+    (h : C06.getBinOnValue guess x e = .ok idx) : idx.length = e.axes.length := by
+  cases x with
+  | scalar x =>
+    cases e with
+    | flat arr =>
+      simp only [C06.getBinOnValue, bind, Except.bind] at h
+      cases h1 : C06.bin1d (guess 0) x arr with
+      | error e => simp [h1] at h
+      | ok i => simp [h1, pure, Except.pure] at h; subst h; simp [Edges.axes]
+    | nested axes =>
+      simp only [C06.getBinOnValue] at h
+      split at h <;> simp at h
+  | tuple xs =>
+    cases e with
+    | flat arr =>
+      have ha : ValidAxis arr := he.2 arr (by simp [Edges.axes])
+      have : ¬ arr.length = 0 := by have := ha.1; omega
+      simp only [C06.getBinOnValue, this, if_false] at h
+      split at h <;> simp at h
+    | nested axes =>
+      simp only [C06.getBinOnValue] at h
+      split at h
+      · simp at h
+      · exact binsLoop_length guess axes xs 0 idx h
+
+theorem idxLen_of_valid {e : Edges α} (he : ValidEdges e) : IdxLen guess e (dimsOf e.axes) := by
+  intro x idx h
+  rw [getBinOnValue_length guess he x idx h]
+  simp [dimsOf]
+
+/-- in a regular array the path of an in-range bin index leads to a cell -/
+theorem cellAt_of_pathOf {dims : List Nat} {a : NArr σ} (hs : NArr.HasShape dims a) {idx : List Int}
+    {p : List Nat} (h : pathOf dims idx = some p) : ∃ c, cellAt a p = some c := by
+  unfold pathOf at h
+  split at h
+  · rename_i hr
+    simp only [Option.some.injEq] at h
+    subst h
+    obtain ⟨c, hc, _⟩ := fillWalk_in (ε := Empty) (fun c => .ok c) dims a idx hs hr
+    exact ⟨c, hc⟩
+  · simp at h
+
+theorem cellAt_of_route {dims : List Nat} {a : NArr σ} (hs : NArr.HasShape dims a) {edges : Edges α}
+    {v : Value D} {p : List Nat} (h : route names av guess edges dims v = .ok (some p)) :
+    ∃ c, cellAt a p = some c := by
+  unfold route at h
+  split at h
+  · simp at h
+  · split at h
+    · simp at h
+    · simp only [Except.ok.injEq] at h
+      exact cellAt_of_pathOf hs h
+
+/-- **One `fill`** (sentences 1 and 2 for a single value).  In a `SplitIntoBins` with valid edges and regular
+bins, `fill(val)`
+* raises what the getter of the argument variable or `get_bin_on_value` raises;
+* leaves the whole state as it is when the value is outside the edges;
+* otherwise hands the value to exactly the cell it is routed to — the new state differs from the old one in
+  that one cell and in `_cur_context`, which becomes the context of the value; an exception of that cell's
+  analysis propagates. -/
+theorem fill_one {s : SIB α σ} (he : ValidEdges s.edges) (hs : NArr.HasShape (dimsOf s.edges.axes) s.bins)
+    (v : Value D) :
+    (∀ e, route names av guess s.edges (dimsOf s.edges.axes) v = .error e →
+      SIB.fill names an av guess s v = .error e) ∧
+    (route names av guess s.edges (dimsOf s.edges.axes) v = .ok none →
+      SIB.fill names an av guess s v = .ok s) ∧
+    (∀ p, route names av guess s.edges (dimsOf s.edges.axes) v = .ok (some p) →
+      ∃ c, cellAt s.bins p = some c ∧
+        (∀ e, an.fill c v = .error e → SIB.fill names an av guess s v = .error (.inner e)) ∧
+        (∀ c', an.fill c v = .ok c' →
+          SIB.fill names an av guess s v =
+            .ok { s with bins := NArr.modifyAt (fun _ => c') s.bins p,
+                         curContext := (C14.getDataContext names v).2 })) := by
+  have hspec := fill_spec names an av guess s hs (idxLen_of_valid guess he) v
+  refine ⟨?_, ?_, ?_⟩
+  · intro e hr; rw [hspec, hr]
+  · intro hr; rw [hspec, hr]
+  · intro p hr
+    obtain ⟨c, hc⟩ := cellAt_of_route names av guess hs hr
+    refine ⟨c, hc, ?_, ?_⟩
+    · intro e hf; rw [hspec, hr]; simp only [hc, hf]
+    · intro c' hf; rw [hspec, hr]; simp only [hc, hf]
+
+/-- **Sentence (2): values outside the edges are ignored.**  If no cell is found for the value (`route`
+says `none`: some coordinate is below its first or not below its last edge, see `route_outside`), `fill`
+changes nothing at all — no cell, not `_cur_context`. -/
+theorem outside_ignored {s : SIB α σ} (he : ValidEdges s.edges) (hs : NArr.HasShape (dimsOf s.edges.axes) s.bins)
+    (v : Value D) (h : route names av guess s.edges (dimsOf s.edges.axes) v = .ok none) :
+    SIB.fill names an av guess s v = .ok s :=
+  (fill_one names an av guess he hs v).2.1 h
+
+/-- **Sentence (1): every cell holds exactly what a private copy of the analysis computes from the cell's
+sub-flow.**  For a `SplitIntoBins` built by `__init__` from any edges (any dimension) around any analysis, and
+any flow that `fill` accepts: the edges are unchanged, the bins keep their regular shape, and for *every*
+cell `p` the state of the cell is the state that the analysis reaches from its initial state on
+`subflow p flow` — the values routed to `p`, in arrival order — and on nothing else. -/
+theorem cell_is_subflow {seq : Option σ} {b : Bool} {edges : Edges α} {s0 s : SIB α σ} (flow : List (Value D))
+    (hnew : (SIB.new names seq b edges : Except (Exc ε) (SIB α σ)) = .ok s0)
+    (hrun : SIB.fillAll names an av guess s0 flow = .ok s) :
+    ∃ init, seq = some init ∧ s.edges = edges ∧ NArr.HasShape (dimsOf edges.axes) s.bins ∧
+      ∀ p, PathIn p (dimsOf edges.axes) →
+        ∃ c, cellAt s.bins p = some c ∧
+          an.fillAll init (subflow names av guess edges (dimsOf edges.axes) p flow) = .ok c := by
+  obtain ⟨init, hseq, he, hs0⟩ := new_ok_inv names hnew
+  subst hs0
+  have hsh : NArr.HasShape (dimsOf edges.axes) (NArr.full (dimsOf edges.axes) init) := C06.hasShape_full init _
+  obtain ⟨hed, hshape, hcells, _⟩ :=
+    fillAllFrom_ok names an av guess flow 0 _ s hsh (idxLen_of_valid guess he) hrun
+  refine ⟨init, hseq, hed, hshape, ?_⟩
+  intro p hp
+  have hsome := (cellAt_isSome_iff _ _ p hsh).2 hp
+  cases hc0 : cellAt (NArr.full (dimsOf edges.axes) init) p with
+  | none => simp [hc0] at hsome
+  | some c0 =>
+    have : c0 = init := cellAt_full init _ p c0 hc0
+    subst this
+    exact hcells p c0 hc0
+
+/-- **Cells share nothing**: from *any* state with regular bins (not only a fresh one), a flow of fills moves
+every cell from its own previous state by its own sub-flow; in particular a cell to which no value is routed
+keeps its state. -/
+theorem cells_share_nothing {s0 s : SIB α σ} (he : ValidEdges s0.edges)
+    (hs : NArr.HasShape (dimsOf s0.edges.axes) s0.bins) (flow : List (Value D))
+    (hrun : SIB.fillAll names an av guess s0 flow = .ok s) :
+    ∀ p c0, cellAt s0.bins p = some c0 →
+      ∃ c, cellAt s.bins p = some c ∧
+        an.fillAll c0 (subflow names av guess s0.edges (dimsOf s0.edges.axes) p flow) = .ok c :=
+  (fillAllFrom_ok names an av guess flow 0 s0 s hs (idxLen_of_valid guess he) hrun).2.2.1
+
+/-- **Sentence (4), first half: `_cur_context` is the context of the last value inside the edges** (the
+empty context of `__init__` when there is none), as that value arrived. -/
+theorem context_is_last_inside {seq : Option σ} {b : Bool} {edges : Edges α} {s0 s : SIB α σ}
+    (flow : List (Value D))
+    (hnew : (SIB.new names seq b edges : Except (Exc ε) (SIB α σ)) = .ok s0)
+    (hrun : SIB.fillAll names an av guess s0 flow = .ok s) :
+    s.curContext =
+      (match (insideFlow names av guess edges (dimsOf edges.axes) flow).getLast? with
+       | none => emptyD names.length
+       | some v => (C14.getDataContext names v).2) := by
+  obtain ⟨init, hseq, he, hs0⟩ := new_ok_inv names hnew
+  subst hs0
+  have hsh : NArr.HasShape (dimsOf edges.axes) (NArr.full (dimsOf edges.axes) init) := C06.hasShape_full init _
+  exact (fillAllFrom_ok names an av guess flow 0 _ s hsh (idxLen_of_valid guess he) hrun).2.2.2
+
+theorem analysis_fillAll_append (c : σ) (xs : List (Value D)) (v : Value D) :
+    an.fillAll c (xs ++ [v]) =
+      (match an.fillAll c xs with
+       | .error e => .error e
+       | .ok c' => an.fill c' v) := by
+  induction xs generalizing c with
+  | nil => simp only [List.nil_append, Analysis.fillAll]; cases an.fill c v <;> rfl
+  | cons x xs ih =>
+    simp only [List.cons_append, Analysis.fillAll]
+    cases an.fill c x with
+    | error e => rfl
+    | ok c' => exact ih c'
+
+/-- **A failing flow** (exceptions as outcomes).  If `fill` raises at position `m`, then all earlier values
+were accepted, and the exception is either that of routing the value (getter / `get_bin_on_value`), or —
+wrapped as `inner` — exactly the exception that the *private analysis of the cell the value is routed to*
+raises on that cell's sub-flow including the value. -/
+theorem fill_error_is_cells {seq : Option σ} {b : Bool} {edges : Edges α} {s0 : SIB α σ} (flow : List (Value D))
+    {m : Nat} {e : Exc ε}
+    (hnew : (SIB.new names seq b edges : Except (Exc ε) (SIB α σ)) = .ok s0)
+    (hrun : SIB.fillAll names an av guess s0 flow = .error (m, e)) :
+    ∃ init pre v post, seq = some init ∧ flow = pre ++ v :: post ∧ m = pre.length ∧
+      (route names av guess edges (dimsOf edges.axes) v = .error e ∨
+       ∃ p e', route names av guess edges (dimsOf edges.axes) v = .ok (some p) ∧ e = .inner e' ∧
+         an.fillAll init (subflow names av guess edges (dimsOf edges.axes) p (pre ++ [v])) = .error e') := by
+  obtain ⟨init, hseq, he, hs0⟩ := new_ok_inv names hnew
+  subst hs0
+  have hsh : NArr.HasShape (dimsOf edges.axes) (NArr.full (dimsOf edges.axes) init) := C06.hasShape_full init _
+  obtain ⟨pre, v, post, sm, hfl, hm, hpre, hv⟩ := fillAllFrom_error names an av guess flow 0 _ m e hrun
+  obtain ⟨hed, hshape, hcells, _⟩ :=
+    fillAllFrom_ok names an av guess pre 0 _ sm hsh (idxLen_of_valid guess he) hpre
+  refine ⟨init, pre, v, post, hseq, hfl, by omega, ?_⟩
+  simp only [] at hed hcells
+  have hl : IdxLen guess sm.edges (dimsOf edges.axes) := by rw [hed]; exact idxLen_of_valid guess he
+  rw [fill_spec names an av guess sm hshape hl v, hed] at hv
+  cases hr : route names av guess edges (dimsOf edges.axes) v with
+  | error e0 =>
+    simp only [hr, Except.error.injEq] at hv
+    subst hv
+    exact Or.inl rfl
+  | ok r =>
+    cases r with
+    | none => simp [hr] at hv
+    | some p =>
+      simp only [hr] at hv
+      cases hc : cellAt sm.bins p with
+      | none =>
+        obtain ⟨c, hc'⟩ := cellAt_of_route names av guess hshape hr
+        simp [hc] at hc'
+      | some c =>
+        simp only [hc] at hv
+        cases hf : an.fill c v with
+        | ok c' => simp [hf] at hv
+        | error e' =>
+          simp only [hf, Except.error.injEq] at hv
+          refine Or.inr ⟨p, e', rfl, hv.symm, ?_⟩
+          have hsome := (cellAt_isSome_iff _ _ p hshape).1 (by simp [hc])
+          have hsome0 := (cellAt_isSome_iff _ _ p hsh).2 hsome
+          cases hc0 : cellAt (NArr.full (dimsOf edges.axes) init) p with
+          | none => simp [hc0] at hsome0
+          | some c0 =>
+            have : c0 = init := cellAt_full init _ p c0 hc0
+            subst this
+            obtain ⟨c1, hc1, hrun1⟩ := hcells p c0 hc0
+            rw [hc] at hc1
+            simp only [Option.some.injEq] at hc1
+            subst hc1
+            have hrt : routedTo names av guess edges (dimsOf edges.axes) v = some p := by simp [routedTo, hr]
+            have : subflow names av guess edges (dimsOf edges.axes) p (pre ++ [v]) =
+                subflow names av guess edges (dimsOf edges.axes) p pre ++ [v] := by
+              simp [subflow, List.filter_append, hrt]
+            rw [this, analysis_fillAll_append, hrun1]
+            exact hf
+
+/-! ### routing = half-open cell membership -/
+
+/-- **The right cell, also for border values.**  With an in-range interpolation guess, for a value whose
+argument `xs` has the right form for the edges: the value is routed to cell `p` iff `p` is the cell whose
+half-open intervals `[low, high)` contain `xs` in every dimension (`C06.InCell`; at most one such cell:
+`C06.inCell_unique`). -/
+theorem route_inCell {edges : Edges α} (he : ValidEdges edges) (hg : GuessesOK guess) {v : Value D}
+    {x : Coord α} {xs : List α} (hx : av.getter (C14.getDataContext names v).1 = .ok x)
+    (hp : Proper edges x xs) (p : List Nat) :
+    route names av guess edges (dimsOf edges.axes) v = .ok (some p) ↔ InCell edges.axes xs p := by
+  have hspec := C06.getBinOnValue_spec guess hg he hp
+  have hiff := C06.inCell_iff edges.axes xs p (C06.validEdges_strictInc he) hp.length
+  simp only [route, hx, hspec, pathOf]
+  rw [hiff]
+  by_cases hr : C06.InRange (C06.indices edges.axes xs) (dimsOf edges.axes)
+  · simp only [hr, if_true, Except.ok.injEq, Option.some.injEq, true_and]
+    exact eq_comm
+  · simp [hr]
+
+/-- … and it is ignored iff no cell contains `xs` -/
+theorem route_outside {edges : Edges α} (he : ValidEdges edges) (hg : GuessesOK guess) {v : Value D}
+    {x : Coord α} {xs : List α} (hx : av.getter (C14.getDataContext names v).1 = .ok x)
+    (hp : Proper edges x xs) :
+    route names av guess edges (dimsOf edges.axes) v = .ok none ↔ ∀ p, ¬ InCell edges.axes xs p := by
+  have hspec := C06.getBinOnValue_spec guess hg he hp
+  simp only [route, hx, hspec, pathOf]
+  by_cases hr : C06.InRange (C06.indices edges.axes xs) (dimsOf edges.axes)
+  · simp only [hr, if_true, Except.ok.injEq, reduceCtorEq, false_iff]
+    intro hall
+    exact hall _ ((C06.inCell_iff edges.axes xs _ (C06.validEdges_strictInc he) hp.length).2 ⟨hr, rfl⟩)
+  · simp only [hr, if_false, true_iff]
+    intro p hin
+    exact hr ((C06.inCell_iff edges.axes xs p (C06.validEdges_strictInc he) hp.length).1 hin).1
+
+/-- membership in a cell's sub-flow, in terms of the half-open cell: for a flow whose values all have a
+well-formed argument, `subflow p flow` consists of exactly the values of the flow that lie in cell `p` -/
+theorem subflow_halfopen {edges : Edges α} (he : ValidEdges edges) (hg : GuessesOK guess) (p : List Nat)
+    (flow : List (Value D)) (v : Value D) {x : Coord α} {xs : List α}
+    (hx : av.getter (C14.getDataContext names v).1 = .ok x) (hp : Proper edges x xs) :
+    v ∈ subflow names av guess edges (dimsOf edges.axes) p flow ↔ v ∈ flow ∧ InCell edges.axes xs p := by
+  simp only [subflow, List.mem_filter, beq_iff_eq]
+  have h1 := route_inCell names av guess he hg hx hp p
+  constructor
+  · rintro ⟨hm, hr⟩
+    refine ⟨hm, h1.1 ?_⟩
+    unfold routedTo at hr
+    split at hr
+    · rename_i r hr'; rw [hr', hr]
+    · simp at hr
+  · rintro ⟨hm, hin⟩
+    exact ⟨hm, by simp [routedTo, h1.2 hin]⟩
+
+end Fill
+
+/-! ## (3), (4): `compute` -/
+section Compute
+variable [LT α] [LE α] [DecidableLT α] [DecidableLE α] [DecidableEq α]
+  [Std.IsLinearOrder α] [Std.LawfulOrderLT α]
+variable (names : List String) (an : Analysis σ D ρ ε) (av : ArgVar α D ε)
+
+/-- the documented formats of edges: flat for one dimension, nested for two or more
+(`[[0, 1, 2]]` is neither, see `mkHistogram_nested1`) -/
+def NotNested1 (e : Edges α) : Prop := ∀ axes, e = .nested axes → axes.length ≠ 1
+
+theorem mkHistogram_eq {e : Edges α} {b : NArr β} {h : Hist α β}
+    (hm : (mkHistogram e b : Except (Exc ε) (Hist α β)) = .ok h) : h = ⟨e, b⟩ := by
+  unfold mkHistogram at hm
+  repeat (split at hm <;> try (simp at hm)) <;> try (exact hm.symm)
+  all_goals (first | exact hm.symm | (simp at hm) | skip)
+
+theorem dimsOf_ne_nil' {e : Edges α} (he : ValidEdges e) : dimsOf e.axes ≠ [] := by
+  have := he.1
+  simpa [dimsOf] using this
+
+/-- `histogram(edges, bins)` accepts bins of the regular shape of valid edges in a documented format -/
+theorem mkHistogram_ok {e : Edges α} (he : ValidEdges e) (hn : NotNested1 e) {b : NArr β}
+    (hs : NArr.HasShape (dimsOf e.axes) b) :
+    (mkHistogram e b : Except (Exc ε) (Hist α β)) = .ok ⟨e, b⟩ := by
+  cases b with
+  | leaf v =>
+    have := dimsOf_ne_nil' he
+    cases hd : dimsOf e.axes with
+    | nil => exact absurd hd this
+    | cons n ns => rw [hd] at hs; simp [NArr.HasShape] at hs
+  | node xs =>
+    cases e with
+    | flat arr =>
+      simp only [Edges.axes, dimsOf, List.map_cons, List.map_nil, NArr.HasShape] at hs
+      simp [mkHistogram, C06.checkEdgesIncreasing_ok he, C06.lenBins, hs.1]
+    | nested axes =>
+      have h1 := hn axes rfl
+      cases axes with
+      | nil => exact absurd rfl he.1
+      | cons a0 rest =>
+        simp only [Edges.axes, dimsOf, List.map_cons, NArr.HasShape] at hs
+        simp only [List.length_cons] at h1
+        have hr : rest ≠ [] := by intro h; simp [h] at h1
+        simp [mkHistogram, C06.checkEdgesIncreasing_ok he, C06.lenBins, hs.1, hr]
+
+/-- **Quirk of `histogram.__init__`** (histogram.py:153-158): for one-dimensional edges in the nested form
+`[[e0, e1, …]]` the test compares `len(bins)` with `len(edges) − 1 = 0`, so the bins that `SplitIntoBins`
+builds for such edges are rejected in `compute()` with `LenaValueError`. -/
+theorem mkHistogram_nested1 {arr : List α} (he : ValidEdges (.nested [arr])) {b : NArr β}
+    (hs : NArr.HasShape [arr.length - 1] b) :
+    (mkHistogram (.nested [arr]) b : Except (Exc ε) (Hist α β)) = .error .lenaValueError := by
+  have ha : ValidAxis arr := he.2 arr (by simp [Edges.axes])
+  cases b with
+  | leaf v => simp [NArr.HasShape] at hs
+  | node xs =>
+    simp only [NArr.HasShape] at hs
+    have : xs.length ≠ 0 := by have := ha.1; omega
+    simp [mkHistogram, C06.checkEdgesIncreasing_ok he, C06.lenBins, this]
+
+/-- valid edges have at least one cell -/
+theorem exists_cell {e : Edges α} (he : ValidEdges e) {a : NArr β} (hs : NArr.HasShape (dimsOf e.axes) a) :
+    ∃ p c, cellAt a p = some c := by
+  have hpos : ∀ n ∈ dimsOf e.axes, 0 < n := by
+    intro n hn
+    simp only [dimsOf, List.mem_map] at hn
+    obtain ⟨arr, ha, rfl⟩ := hn
+    have := (he.2 arr ha).1
+    omega
+  have hp : ∀ (dims : List Nat), (∀ n ∈ dims, 0 < n) → PathIn (dims.map (fun _ => 0)) dims := by
+    intro dims
+    induction dims with
+    | nil => intro _; simp [PathIn]
+    | cons n ns ih =>
+      intro h
+      exact ⟨h n (by simp), ih (fun m hm => h m (List.mem_cons_of_mem _ hm))⟩
+  have := (cellAt_isSome_iff _ a _ hs).2 (hp _ hpos)
+  cases hc : cellAt a ((dimsOf e.axes).map (fun _ => 0)) with
+  | none => simp [hc] at this
+  | some c => exact ⟨_, c, hc⟩
+
+/-- the generators of the cells, as `compute` sees them -/
+def cellTraces (s : SIB α σ) : NArr (Trace ρ (Exc ε)) := NArr.map (fun c => (an.compute c).liftInner) s.bins
+
+/-- `compute()` when `_update_context` succeeds: the `_MdSeqMap` over the cells' generators -/
+theorem compute_eq {s : SIB α σ} (he : ValidEdges s.edges) (hs : NArr.HasShape (dimsOf s.edges.axes) s.bins)
+    {ctx : Slots} (hctx : C14.updateContext names true s.curContext av.varCtx = .ok ctx) :
+    SIB.compute names an av s =
+      mdSeqMapRun (fun result =>
+        match (mkHistogram s.edges result : Except (Exc ε) (Hist α ρ)) with
+        | .error e => .error e
+        | .ok h => .ok (h, ctx)) (cellTraces an s) := by
+  cases hd : dimsOf s.edges.axes with
+  | nil => exact absurd hd (dimsOf_ne_nil' he)
+  | cons n ns =>
+    rw [hd] at hs
+    simp only [SIB.compute, hctx, mdMap_ok _ ns n s.bins hs, cellTraces]
+    rfl
+
+/-- **Sentence (4), error outcome**: when `Variable._update_context` raises (e.g. a `compose` entry of the
+flow's context that is not a list), `compute()` raises that exception before yielding anything. -/
+theorem compute_context_error (s : SIB α σ) {e : C14.Err}
+    (hctx : C14.updateContext names true s.curContext av.varCtx = .error e) :
+    SIB.compute names an av s = ⟨[], some (Exc.ofVarErr e)⟩ := by
+  simp only [SIB.compute, hctx]
+
+/-- **Sentence (3): the yielded histograms hold the per-cell results over the given edges**, and
+**sentence (4)**: each comes with `_cur_context` updated by the argument variable.  For the `j`-th value
+`(h, c)` that `compute()` yields: `c` is the updated context, `h.edges` are the edges of the
+`SplitIntoBins`, `h.bins` have the regular shape of the edges, and the cell `p` of `h` holds the `j`-th result
+that the analysis in cell `p` computes. -/
+theorem result_shape {s : SIB α σ} (he : ValidEdges s.edges) (hs : NArr.HasShape (dimsOf s.edges.axes) s.bins)
+    {ctx : Slots} (hctx : C14.updateContext names true s.curContext av.varCtx = .ok ctx)
+    (j : Nat) (h : Hist α ρ) (c : Slots)
+    (hj : (SIB.compute names an av s).out[j]? = some (h, c)) :
+    c = ctx ∧ h.edges = s.edges ∧ NArr.HasShape (dimsOf s.edges.axes) h.bins ∧
+      ∀ p cst, cellAt s.bins p = some cst →
+        ∃ r, (an.compute cst).out[j]? = some r ∧ cellAt h.bins p = some r := by
+  rw [compute_eq names an av he hs hctx] at hj
+  have hst : NArr.HasShape (dimsOf s.edges.axes) (cellTraces an s) := hasShape_map _ _ _ hs
+  obtain ⟨result, hsh, hc, hm⟩ := mdSeqMapRun_out _ _ hst (dimsOf_ne_nil' he) j _ hj
+  cases hmk : (mkHistogram s.edges result : Except (Exc ε) (Hist α ρ)) with
+  | error e => simp [hmk] at hm
+  | ok h' =>
+    simp only [hmk, Except.ok.injEq, Prod.mk.injEq] at hm
+    obtain ⟨rfl, rfl⟩ := hm
+    have := mkHistogram_eq hmk
+    subst this
+    refine ⟨rfl, rfl, hsh, ?_⟩
+    intro p cst hp
+    have ht : cellAt (cellTraces an s) p = some (an.compute cst).liftInner := by
+      simp [cellTraces, cellAt_map, hp]
+    obtain ⟨r, hr, hcr⟩ := hc p _ ht
+    exact ⟨r, hr, hcr⟩
+
+/-- **Sentence (3), number of histograms**: never more than any cell has results … -/
+theorem result_count_le {s : SIB α σ} (he : ValidEdges s.edges) (hs : NArr.HasShape (dimsOf s.edges.axes) s.bins)
+    (p : List Nat) (cst : σ) (hp : cellAt s.bins p = some cst) :
+    (SIB.compute names an av s).out.length ≤ (an.compute cst).out.length := by
+  cases hctx : C14.updateContext names true s.curContext av.varCtx with
+  | error e => simp [compute_context_error names an av s hctx]
+  | ok ctx =>
+    rw [compute_eq names an av he hs hctx]
+    have hst : NArr.HasShape (dimsOf s.edges.axes) (cellTraces an s) := hasShape_map _ _ _ hs
+    have ht : cellAt (cellTraces an s) p = some (an.compute cst).liftInner := by
+      simp [cellTraces, cellAt_map, hp]
+    exact mdSeqMapRun_length_le _ _ hst (dimsOf_ne_nil' he) p _ ht
+
+/-- … and when `compute()` ends normally, exactly as many as the cell with the fewest results has (that
+cell's generator ended normally): the *minimum over the cells*. -/
+theorem result_count_stop {s : SIB α σ} (he : ValidEdges s.edges) (hs : NArr.HasShape (dimsOf s.edges.axes) s.bins)
+    (hfin : (SIB.compute names an av s).fin = none) :
+    ∃ p cst, cellAt s.bins p = some cst ∧
+      (an.compute cst).out.length = (SIB.compute names an av s).out.length ∧ (an.compute cst).fin = none := by
+  cases hctx : C14.updateContext names true s.curContext av.varCtx with
+  | error e => simp [compute_context_error names an av s hctx] at hfin
+  | ok ctx =>
+    rw [compute_eq names an av he hs hctx] at hfin ⊢
+    have hst : NArr.HasShape (dimsOf s.edges.axes) (cellTraces an s) := hasShape_map _ _ _ hs
+    obtain ⟨p, t, ht, hlen, hf⟩ := mdSeqMapRun_stop _ _ hst (dimsOf_ne_nil' he) hfin
+    simp only [cellTraces, cellAt_map] at ht
+    cases hc : cellAt s.bins p with
+    | none => simp [hc] at ht
+    | some cst =>
+      simp only [hc, Option.map_some, Option.some.injEq] at ht
+      subst ht
+      refine ⟨p, cst, hc, hlen, ?_⟩
+      simpa [Trace.liftInner] using hf
+
+/-- **Exceptions of the cells' generators propagate**: when `compute()` raises after `_update_context`
+succeeded (edges in a documented format), it raises — wrapped as `inner` — the exception with which the
+generator of a cell ended that has the fewest results. -/
+theorem compute_raise {s : SIB α σ} (he : ValidEdges s.edges) (hn : NotNested1 s.edges)
+    (hs : NArr.HasShape (dimsOf s.edges.axes) s.bins)
+    {ctx : Slots} (hctx : C14.updateContext names true s.curContext av.varCtx = .ok ctx)
+    (e : Exc ε) (hfin : (SIB.compute names an av s).fin = some e) :
+    ∃ p cst e', cellAt s.bins p = some cst ∧
+      (an.compute cst).out.length = (SIB.compute names an av s).out.length ∧
+      (an.compute cst).fin = some e' ∧ e = .inner e' := by
+  rw [compute_eq names an av he hs hctx] at hfin ⊢
+  have hst : NArr.HasShape (dimsOf s.edges.axes) (cellTraces an s) := hasShape_map _ _ _ hs
+  have hne : ∃ p t, cellAt (cellTraces an s) p = some t := exists_cell he hst
+  rcases mdSeqMapRun_raise _ _ hst (dimsOf_ne_nil' he) hne e hfin with ⟨p, t, ht, hlen, hf⟩ | ⟨result, hsh, _, hm⟩
+  · simp only [cellTraces, cellAt_map] at ht
+    cases hc : cellAt s.bins p with
+    | none => simp [hc] at ht
+    | some cst =>
+      simp only [hc, Option.map_some, Option.some.injEq] at ht
+      subst ht
+      simp only [Trace.liftInner, Option.map_eq_some_iff] at hf
+      obtain ⟨e', he', hee⟩ := hf
+      exact ⟨p, cst, e', hc, hlen, he', hee.symm⟩
+  · rw [mkHistogram_ok he hn hsh] at hm
+    simp at hm
+
+/-- **Sentences (3)+(4) together, the regular case**: if no cell's generator raises, `_update_context`
+succeeds and the edges are in a documented format, `compute()` ends normally, and the number of histograms
+is the minimum over the cells of the number of results. -/
+theorem compute_complete {s : SIB α σ} (he : ValidEdges s.edges) (hn : NotNested1 s.edges)
+    (hs : NArr.HasShape (dimsOf s.edges.axes) s.bins)
+    {ctx : Slots} (hctx : C14.updateContext names true s.curContext av.varCtx = .ok ctx)
+    (hall : ∀ p cst, cellAt s.bins p = some cst → (an.compute cst).fin = none) :
+    (SIB.compute names an av s).fin = none ∧
+    (∀ p cst, cellAt s.bins p = some cst →
+      (SIB.compute names an av s).out.length ≤ (an.compute cst).out.length) ∧
+    (∃ p cst, cellAt s.bins p = some cst ∧
+      (an.compute cst).out.length = (SIB.compute names an av s).out.length) := by
+  have hfin : (SIB.compute names an av s).fin = none := by
+    cases hf : (SIB.compute names an av s).fin with
+    | none => rfl
+    | some e =>
+      obtain ⟨p, cst, e', hc, _, hfe, _⟩ := compute_raise names an av he hn hs hctx e hf
+      rw [hall p cst hc] at hfe
+      simp at hfe
+  refine ⟨hfin, fun p cst hp => result_count_le names an av he hs p cst hp, ?_⟩
+  obtain ⟨p, cst, hc, hlen, _⟩ := result_count_stop names an av he hs hfin
+  exact ⟨p, cst, hc, hlen⟩
+
+/-! ### (4) what `_update_context` does to the context -/
+
+theorem getSlot_setSlot' : ∀ (l : Slots) (i j : Nat) (v : Option V),
+    getSlot (setSlot l i v) j = if j = i then v else getSlot l j
+  | [], 0, 0, v => by simp [setSlot, getSlot]
+  | [], 0, j + 1, v => by simp [setSlot, getSlot]
+  | [], i + 1, 0, v => by simp [setSlot, getSlot]
+  | [], i + 1, j + 1, v => by
+    have := getSlot_setSlot' [] i j v
+    simp only [getSlot, setSlot, List.getElem?_cons_succ] at this ⊢
+    simp only [this, Nat.add_right_cancel_iff]
+    simp
+  | x :: r, 0, 0, v => by simp [setSlot, getSlot]
+  | x :: r, 0, j + 1, v => by simp [setSlot, getSlot]
+  | x :: r, i + 1, 0, v => by simp [setSlot, getSlot]
+  | x :: r, i + 1, j + 1, v => by
+    have := getSlot_setSlot' r i j v
+    simp only [getSlot, setSlot, List.getElem?_cons_succ] at this ⊢
+    simp only [this, Nat.add_right_cancel_iff]
+
+/-- **Sentence (4): `context.variable` describes the argument variable.**  The context of every yielded
+histogram has under `variable` the dictionary that `Variable._update_context` builds from the flow's
+`context.variable` and the variable's own `var_context` (`C14.updateVar`, characterised by the C14 theorems:
+the variable's attributes, plus the composition history of typed variables) … -/
+theorem variable_in_context {cur vc ctx : Slots} (h : C14.updateContext names true cur vc = .ok ctx) :
+    ∃ r, C14.updateVar names true (getSlot cur (C14.kVariable names)) vc = .ok r ∧
+      getSlot ctx (C14.kVariable names) = some (.dict r) := by
+  unfold C14.updateContext at h
+  cases hu : C14.updateVar names true (getSlot cur (C14.kVariable names)) vc with
+  | error e => simp [hu] at h
+  | ok r =>
+    simp only [hu, Except.ok.injEq] at h
+    subst h
+    exact ⟨r, rfl, by simp [getSlot_setSlot']⟩
+
+/-- … every other key of the flow's context is preserved … -/
+theorem context_frame {cur vc ctx : Slots} (h : C14.updateContext names true cur vc = .ok ctx) (k : Nat)
+    (hk : k ≠ C14.kVariable names) : getSlot ctx k = getSlot cur k := by
+  unfold C14.updateContext at h
+  cases hu : C14.updateVar names true (getSlot cur (C14.kVariable names)) vc with
+  | error e => simp [hu] at h
+  | ok r =>
+    simp only [hu, Except.ok.injEq] at h
+    subst h
+    simp [getSlot_setSlot', hk]
+
+/-- … and when the flow's context has no `variable` (in particular for flows without context),
+`context.variable` is exactly the `var_context` of the argument variable. -/
+theorem variable_fresh (cur vc : Slots) (h : getSlot cur (C14.kVariable names) = none) :
+    C14.updateContext names true cur vc = .ok (setSlot cur (C14.kVariable names) (some (.dict vc))) := by
+  simp [C14.updateContext, h, C14.updateVar]
+
+end Compute
+
+/-! ## (5), (6): `IterateBins`, `MapBins` -/
+section Bins
+variable [LT α] [LE α] [DecidableLT α] [DecidableLE α] [DecidableEq α]
+  [Std.IsLinearOrder α] [Std.LawfulOrderLT α]
+variable (names : List String)
+
+/-- the example bin of a histogram with valid edges and regular bins is its first cell `[0]…[0]` -/
+theorem exampleBin_ok {h : Hist α β} (he : ValidEdges h.edges) (hs : NArr.HasShape (dimsOf h.edges.axes) h.bins) :
+    ∃ b00, (exampleBin h : Except (Exc ε) β) = .ok b00 ∧
+      cellAt h.bins ((dimsOf h.edges.axes).map (fun _ => 0)) = some b00 := by
+  have hpos : ∀ n ∈ dimsOf h.edges.axes, 0 < n := by
+    intro n hn
+    simp only [dimsOf, List.mem_map] at hn
+    obtain ⟨arr, ha, rfl⟩ := hn
+    have := (he.2 arr ha).1
+    omega
+  have hp : ∀ (dims : List Nat), (∀ n ∈ dims, 0 < n) → PathIn (dims.map (fun _ => 0)) dims := by
+    intro dims
+    induction dims with
+    | nil => intro _; simp [PathIn]
+    | cons n ns ih =>
+      intro h
+      exact ⟨h n (by simp), ih (fun m hm => h m (List.mem_cons_of_mem _ hm))⟩
+  have := (cellAt_isSome_iff _ h.bins _ hs).2 (hp _ hpos)
+  cases hc : cellAt h.bins ((dimsOf h.edges.axes).map (fun _ => 0)) with
+  | none => simp [hc] at this
+  | some c =>
+    refine ⟨c, ?_, rfl⟩
+    have hrep : List.replicate (Edges.dim h.edges) 0 = (dimsOf h.edges.axes).map (fun _ => 0) := by
+      cases h.edges with
+      | flat arr => simp [Edges.dim, Edges.axes, dimsOf]
+      | nested axes =>
+        simp only [Edges.dim, Edges.axes, dimsOf, List.map_map]
+        induction axes with
+        | nil => rfl
+        | cons a rest ih => simp [List.replicate_succ, ih]
+    simp only [exampleBin, hrep, getBin_of_cellAt _ _ _ hc]
+
+/-- what `IterateBins` yields for the cell with index path `p` and content `histc`: the data of the cell with
+the context built from the cell's own context, the histogram's context and the cell's own edges -/
+def cellOutput (createEdgesStr : List (α × α) → Option V → Except (Exc ε) V) (encEdges : List (α × α) → V)
+    (hctx : Slots) (axes : List (List α)) (pc : List Nat × Value D) : Except (Exc ε) (FVal α D) :=
+  match cellEdges axes pc.1 with
+  | .error e => .error e
+  | .ok ce =>
+    match binContext names createEdgesStr encEdges hctx pc.2 ce with
+    | .error e => .error e
+    | .ok v => .ok (.plain v)
+
+/-- **Sentence (5): `IterateBins` enumerates every cell once with its own edges and context.**  For a
+histogram with valid edges and regular bins whose example bin is selected, `IterateBins.run` yields, for the
+cells in `iter_bins` order (`NArr.cells`: every cell exactly once, lexicographic in the index), the output
+of that cell (`cellOutput`: built from *that* cell's content and *that* cell's edges, see `cell_edges_own`)
+— stopping at the first cell for which building the context raises. -/
+theorem iterate_bins_once (sel : D → Bool) (createEdgesStr : List (α × α) → Option V → Except (Exc ε) V)
+    (encEdges : List (α × α) → V) {h : Hist α (Value D)} (he : ValidEdges h.edges)
+    (hs : NArr.HasShape (dimsOf h.edges.axes) h.bins) (ctx : Option Slots)
+    (hsel : ∀ b00, (exampleBin h : Except (Exc ε) (Value D)) = .ok b00 →
+      sel (C14.getDataContext names b00).1 = true) :
+    iterateBinsOne names sel createEdgesStr encEdges (.hist h ctx) =
+      traceMapM (cellOutput names createEdgesStr encEdges (ctx.getD (emptyD names.length)) h.edges.axes)
+        (NArr.cells h.bins) := by
+  obtain ⟨b00, hb, _⟩ := exampleBin_ok (ε := ε) he hs
+  have hidx : binIndices h.edges = (NArr.cells h.bins).map (·.1) := by
+    rw [cells_fst _ _ hs]
+    simp [binIndices, dimsOf, List.map_map, Function.comp_def]
+  simp only [iterateBinsOne, hb, hsel b00 hb, Bool.not_true, Bool.false_eq_true, if_false, hidx]
+  rw [traceMapM_map]
+  apply traceMapM_congr
+  rintro ⟨p, v⟩ hm
+  have hc := cellAt_of_mem_cells _ p v hm
+  simp only [binWithEdges, getBin_of_cellAt _ _ _ hc, cellOutput]
+  cases cellEdges (ε := ε) h.edges.axes p <;> rfl
+
+/-- the index paths `IterateBins` goes through are exactly the cells of the histogram … -/
+theorem iterate_all_cells (a : NArr β) (p : List Nat) :
+    p ∈ (NArr.cells a).map (·.1) ↔ (cellAt a p).isSome := by
+  simp only [List.mem_map]
+  constructor
+  · rintro ⟨⟨q, v⟩, hm, rfl⟩
+    simp [cellAt_of_mem_cells a q v hm]
+  · intro h
+    cases hc : cellAt a p with
+    | none => simp [hc] at h
+    | some v => exact ⟨(p, v), mem_cells_of_cellAt a p v hc, rfl⟩
+
+/-- … and the edges used for the cell `p` are that cell's own: `(axes[k][p[k]], axes[k][p[k]+1])` for every
+axis `k` (`cellEdges` never fails for a cell of a regular array) -/
+theorem cell_edges_own {h : Hist α β} (hs : NArr.HasShape (dimsOf h.edges.axes) h.bins) (p : List Nat) (v : β)
+    (hm : (p, v) ∈ NArr.cells h.bins) :
+    ∃ ce, (cellEdges h.edges.axes p : Except (Exc ε) (List (α × α))) = .ok ce ∧ IsCellEdges h.edges.axes p ce := by
+  have hc := cellAt_of_mem_cells _ p v hm
+  have hp := (cellAt_isSome_iff _ _ p hs).1 (by simp [hc])
+  exact cellEdges_spec ε h.edges.axes p hp
+
+/-- when no cell's context construction raises, the number of values is the number of cells -/
+theorem iterate_bins_count (sel : D → Bool) (createEdgesStr : List (α × α) → Option V → Except (Exc ε) V)
+    (encEdges : List (α × α) → V) {h : Hist α (Value D)} (he : ValidEdges h.edges)
+    (hs : NArr.HasShape (dimsOf h.edges.axes) h.bins) (ctx : Option Slots)
+    (hsel : ∀ b00, (exampleBin h : Except (Exc ε) (Value D)) = .ok b00 →
+      sel (C14.getDataContext names b00).1 = true)
+    (g : List Nat × Value D → FVal α D)
+    (hok : ∀ pc ∈ NArr.cells h.bins,
+      cellOutput names createEdgesStr encEdges (ctx.getD (emptyD names.length)) h.edges.axes pc = .ok (g pc)) :
+    iterateBinsOne names sel createEdgesStr encEdges (.hist h ctx) = ⟨(NArr.cells h.bins).map g, none⟩ := by
+  rw [iterate_bins_once names sel createEdgesStr encEdges he hs ctx hsel]
+  exact traceMapM_ok _ g _ hok
+
+/-- **Sentence (5), the cell's context.**  For a cell whose own context has neither `bins` nor `bin`: the
+yielded context is the cell's context with `bins` = the histogram's context and `bin` = `{edges: the cell's
+edges, edges_str: create_edges_str(edges, histogram context.variable)}`; the data is the cell's data. -/
+theorem iterate_cell_context (createEdgesStr : List (α × α) → Option V → Except (Exc ε) V)
+    (encEdges : List (α × α) → V) (hk : kBin names ≠ kBins names) (hctx : Slots) (histc : Value D)
+    (be : List (α × α)) (es : V)
+    (hes : createEdgesStr be (getSlot hctx (C14.kVariable names)) = .ok es)
+    (h1 : getSlot (C14.getDataContext names histc).2 (kBins names) = none)
+    (h2 : getSlot (C14.getDataContext names histc).2 (kBin names) = none) :
+    binContext names createEdgesStr encEdges hctx histc be =
+      .ok (.pair (C14.getDataContext names histc).1
+        (setSlot (setSlot (C14.getDataContext names histc).2 (kBins names) (some (.dict hctx))) (kBin names)
+          (some (.dict (setSlot (setSlot (emptyD names.length) (kEdges names) (some (encEdges be)))
+            (kEdgesStr names) (some es)))))) := by
+  have h3 : getSlot (setSlot (C14.getDataContext names histc).2 (kBins names) (some (.dict hctx))) (kBin names) = none := by
+    rw [getSlot_setSlot']; simp [hk, h2]
+  simp only [binContext, hes, updateNested, h1, h3]
+
+/-- values that are not histograms pass `IterateBins` unchanged -/
+theorem iterate_passes (sel : D → Bool) (createEdgesStr : List (α × α) → Option V → Except (Exc ε) V)
+    (encEdges : List (α × α) → V) (v : Value D) :
+    iterateBinsOne names sel createEdgesStr encEdges (.plain v : FVal α D) = ⟨[.plain v], none⟩ := rfl
+
+/-- histograms whose example bin is not selected pass unchanged -/
+theorem iterate_passes_unselected (sel : D → Bool) (createEdgesStr : List (α × α) → Option V → Except (Exc ε) V)
+    (encEdges : List (α × α) → V) (h : Hist α (Value D)) (ctx : Option Slots) (b00 : Value D)
+    (hb : (exampleBin h : Except (Exc ε) (Value D)) = .ok b00)
+    (hsel : sel (C14.getDataContext names b00).1 = false) :
+    iterateBinsOne names sel createEdgesStr encEdges (.hist h ctx) = ⟨[.hist h ctx], none⟩ := by
+  simp [iterateBinsOne, hb, hsel]
+
+/-! ### `MapBins` -/
+
+/-- **Sentence (6): `MapBins` returns histograms of identical shape and edges whose every cell is the
+sequence applied to the corresponding cell.**  For a selected histogram with valid edges and regular bins,
+the `j`-th value yielded is a histogram with context, over the same edges, with bins of the same regular
+shape, and its cell `p` holds the `j`-th result of the sequence run on the cell `p` alone — its data part
+when `drop_bins_context` is set. -/
+theorem map_bins_shape (seqRun : Value D → Trace (Value D) ε) (sel : Value D → Bool) (drop : Bool)
+    {h : Hist α (Value D)} (he : ValidEdges h.edges) (hs : NArr.HasShape (dimsOf h.edges.axes) h.bins)
+    (ctx : Option Slots)
+    (hsel : ∀ b00, (exampleBin h : Except (Exc ε) (Value D)) = .ok b00 → sel b00 = true)
+    (j : Nat) (fv : FVal α D)
+    (hj : (mapBinsOne names seqRun sel drop (.hist h ctx)).out[j]? = some fv) :
+    ∃ h' c', fv = .hist h' (some c') ∧ h'.edges = h.edges ∧ NArr.HasShape (dimsOf h.edges.axes) h'.bins ∧
+      ∀ p cell, cellAt h.bins p = some cell →
+        ∃ r, (seqRun cell).out[j]? = some r ∧
+          cellAt h'.bins p = some (if drop then dataOnly names r else r) := by
+  obtain ⟨b00, hb, _⟩ := exampleBin_ok (ε := ε) he hs
+  cases hd : dimsOf h.edges.axes with
+  | nil => exact absurd hd (dimsOf_ne_nil' he)
+  | cons n ns =>
+    have hs' := hs
+    rw [hd] at hs'
+    simp only [mapBinsOne, hb, hsel b00 hb, Bool.not_true, Bool.false_eq_true, if_false,
+      mdMap_ok _ ns n h.bins hs'] at hj
+    have hst : NArr.HasShape (n :: ns) (NArr.map (fun cell => (seqRun cell).liftInner) h.bins) :=
+      hasShape_map _ _ _ hs'
+    obtain ⟨result, hsh, hc, hm⟩ := mdSeqMapRun_out _ _ hst (by simp) j _ hj
+    have hcells : ∀ p cell, cellAt h.bins p = some cell →
+        ∃ r, (seqRun cell).out[j]? = some r ∧ cellAt result p = some r := by
+      intro p cell hp
+      have ht : cellAt (NArr.map (fun cell => (seqRun cell).liftInner) h.bins) p = some (seqRun cell).liftInner := by
+        simp [cellAt_map, hp]
+      obtain ⟨r, hr, hcr⟩ := hc p _ ht
+      exact ⟨r, hr, hcr⟩
+    unfold mapBinsResult at hm
+    cases drop with
+    | true =>
+      simp only [if_true, mdMap_ok _ ns n result hsh, liftErr] at hm
+      cases hmk : (mkHistogram h.edges (NArr.map (dataOnly names) result) : Except (Exc ε) (Hist α (Value D))) with
+      | error e => simp [hmk] at hm
+      | ok nh =>
+        have := mkHistogram_eq hmk
+        subst this
+        simp only [hmk] at hm
+        cases hex : (exampleOfArray result : Except (Exc ε) (Value D)) with
+        | error e => simp [hex] at hm
+        | ok ex =>
+          simp only [hex] at hm
+          have hshape : NArr.HasShape (n :: ns) (NArr.map (dataOnly names) result) := hasShape_map _ _ _ hsh
+          have hcell' : ∀ p cell, cellAt h.bins p = some cell →
+              ∃ r, (seqRun cell).out[j]? = some r ∧
+                cellAt (NArr.map (dataOnly names) result) p = some (dataOnly names r) := by
+            intro p cell hp
+            obtain ⟨r, hr, hcr⟩ := hcells p cell hp
+            exact ⟨r, hr, by simp [cellAt_map, hcr]⟩
+          split at hm
+          · split at hm
+            · simp at hm
+            · simp only [Except.ok.injEq] at hm
+              exact ⟨_, _, hm.symm, rfl, hshape, by simpa using hcell'⟩
+          · simp only [Except.ok.injEq] at hm
+            exact ⟨_, _, hm.symm, rfl, hshape, by simpa using hcell'⟩
+    | false =>
+      simp only [Bool.false_eq_true, if_false] at hm
+      cases hmk : (mkHistogram h.edges result : Except (Exc ε) (Hist α (Value D))) with
+      | error e => simp [hmk] at hm
+      | ok nh =>
+        have := mkHistogram_eq hmk
+        subst this
+        simp only [hmk] at hm
+        cases hex : (exampleOfArray result : Except (Exc ε) (Value D)) with
+        | error e => simp [hex] at hm
+        | ok ex =>
+          simp only [hex] at hm
+          split at hm
+          · split at hm
+            · simp at hm
+            · simp only [Except.ok.injEq] at hm
+              exact ⟨_, _, hm.symm, rfl, hsh, by simpa using hcells⟩
+          · simp only [Except.ok.injEq] at hm
+            exact ⟨_, _, hm.symm, rfl, hsh, by simpa using hcells⟩
+
+/-- `MapBins` yields no more histograms than the sequence yields results on any cell (the minimum over the
+cells when it ends normally: `mdSeqMapRun_stop`) -/
+theorem map_bins_count_le (seqRun : Value D → Trace (Value D) ε) (sel : Value D → Bool) (drop : Bool)
+    {h : Hist α (Value D)} (he : ValidEdges h.edges) (hs : NArr.HasShape (dimsOf h.edges.axes) h.bins)
+    (ctx : Option Slots)
+    (hsel : ∀ b00, (exampleBin h : Except (Exc ε) (Value D)) = .ok b00 → sel b00 = true)
+    (p : List Nat) (cell : Value D) (hp : cellAt h.bins p = some cell) :
+    (mapBinsOne names seqRun sel drop (.hist h ctx)).out.length ≤ (seqRun cell).out.length := by
+  obtain ⟨b00, hb, _⟩ := exampleBin_ok (ε := ε) he hs
+  cases hd : dimsOf h.edges.axes with
+  | nil => exact absurd hd (dimsOf_ne_nil' he)
+  | cons n ns =>
+    have hs' := hs
+    rw [hd] at hs'
+    simp only [mapBinsOne, hb, hsel b00 hb, Bool.not_true, Bool.false_eq_true, if_false,
+      mdMap_ok _ ns n h.bins hs']
+    have hst : NArr.HasShape (n :: ns) (NArr.map (fun cell => (seqRun cell).liftInner) h.bins) :=
+      hasShape_map _ _ _ hs'
+    have ht : cellAt (NArr.map (fun cell => (seqRun cell).liftInner) h.bins) p = some (seqRun cell).liftInner := by
+      simp [cellAt_map, hp]
+    exact mdSeqMapRun_length_le _ _ hst (by simp) p _ ht
+
+/-- values that are not histograms, and histograms whose example bin is not selected, pass `MapBins`
+unchanged -/
+theorem map_bins_passes (seqRun : Value D → Trace (Value D) ε) (sel : Value D → Bool) (drop : Bool) :
+    (∀ v : Value D, mapBinsOne names seqRun sel drop (.plain v : FVal α D) = ⟨[.plain v], none⟩) ∧
+    (∀ (h : Hist α (Value D)) (ctx : Option Slots) (b00 : Value D),
+      (exampleBin h : Except (Exc ε) (Value D)) = .ok b00 → sel b00 = false →
+      mapBinsOne names seqRun sel drop (.hist h ctx) = ⟨[.hist h ctx], none⟩) := by
+  refine ⟨fun v => rfl, ?_⟩
+  intro h ctx b00 hb hsel
+  simp [mapBinsOne, hb, hsel]
+
+end Bins
+
+/-- **Sentence (5), "once"**: the index paths that `IterateBins` goes through (`iterate_bins_once`) are
+strictly increasing in lexicographic order — so no cell is visited twice — and they are exactly the cells
+(`iterate_all_cells`). -/
+theorem iterate_each_cell_once {dims : List Nat} {a : NArr β} (hs : NArr.HasShape dims a) :
+    ((NArr.cells a).map (·.1)).Pairwise LexLt ∧ ((NArr.cells a).map (·.1)).Nodup ∧
+    ∀ p, p ∈ (NArr.cells a).map (·.1) ↔ PathIn p dims := by
+  refine ⟨(cells_sorted hs).1, (cells_sorted hs).2, ?_⟩
+  intro p
+  rw [iterate_all_cells, cellAt_isSome_iff dims a p hs]
+
+/-! ## non-vacuity: concrete instances of the hypotheses (tests, not theorems) -/
+section Examples
+open Lena.C06 (exEdges exEdges_valid midGuess midGuess_ok ex_inCell ex_noCell)
+
+/-- an analysis that stores the data parts; `compute()` yields the number of stored values -/
+def exAn : Analysis (List (List Int)) (List Int) Nat Unit where
+  fill := fun s v => .ok (s ++ [(C14.getDataContext [] v).1])
+  compute := fun s => ⟨[s.length], none⟩
+
+/-- the argument variable: the data is the coordinate tuple; its `var_context` is empty here -/
+def exAv : ArgVar Int (List Int) Unit := ⟨fun d => .ok (.tuple d), []⟩
+
+def exG : Nat → Nat → Nat → Int := fun _ => midGuess
+
+def exS0 : SIB Int (List (List Int)) := ⟨exEdges, NArr.full [3, 2] [], []⟩
+
+-- `new_valid`: a 3 × 2 mesh of empty analyses
+example : (SIB.new [] (some []) true exEdges : Except (Exc Unit) (SIB Int (List (List Int)))) = .ok exS0 :=
+  new_valid [] exEdges_valid []
+
+-- `route_inCell`: the point (3, 1) is routed to the cell (2, 1); `route_outside`: (3, 6) is ignored
+theorem ex_route_in : route [] exAv exG exEdges [3, 2] (.bare [3, 1]) = .ok (some [2, 1]) :=
+  (route_inCell [] exAv exG exEdges_valid (fun _ => midGuess_ok) (v := .bare [3, 1]) rfl
+    (Proper.nested _ _ rfl) [2, 1]).2 ex_inCell
+
+theorem ex_route_out : route [] exAv exG exEdges [3, 2] (.bare [3, 6]) = .ok none :=
+  (route_outside [] exAv exG exEdges_valid (fun _ => midGuess_ok) (v := .bare [3, 6]) rfl
+    (Proper.nested _ _ rfl)).2 ex_noCell
+
+def exS1 : SIB Int (List (List Int)) :=
+  ⟨exEdges, .node [.node [.leaf [], .leaf []], .node [.leaf [], .leaf []], .node [.leaf [], .leaf [[3, 1]]]], []⟩
+
+-- `fill_one`, `outside_ignored`: the hypotheses of `cell_is_subflow` / `cells_share_nothing` /
+-- `context_is_last_inside` hold for the flow (3, 1), (3, 6)
+theorem ex_fill1 : SIB.fill [] exAn exAv exG exS0 (.bare [3, 1]) = .ok exS1 := by
+  obtain ⟨c, hc, _, hok⟩ := (fill_one [] exAn exAv exG (s := exS0) exEdges_valid (C06.hasShape_full _ _)
+    (.bare [3, 1])).2.2 [2, 1] ex_route_in
+  have : c = [] := cellAt_full [] [3, 2] [2, 1] c hc
+  subst this
+  rw [hok [[3, 1]] rfl]
+  rfl
+
+theorem ex_fill2 : SIB.fill [] exAn exAv exG exS1 (.bare [3, 6]) = .ok exS1 :=
+  outside_ignored [] exAn exAv exG (s := exS1) exEdges_valid
+    (by simp [exS1, exEdges, dimsOf, Edges.axes, NArr.HasShape]) (.bare [3, 6]) ex_route_out
+
+example : SIB.fillAll [] exAn exAv exG exS0 [.bare [3, 1], .bare [3, 6]] = .ok exS1 := by
+  simp [SIB.fillAll, SIB.fillAllFrom, ex_fill1, ex_fill2]
+
+-- `result_shape`, `compute_complete`, …: `compute()` of that state yields one histogram of counts
+example : C14.updateContext [] true exS1.curContext exAv.varCtx = .ok [some (.dict [])] := rfl
+example : (SIB.compute [] exAn exAv exS1).out.map (fun hc => hc.1.bins) =
+    [.node [.node [.leaf 0, .leaf 0], .node [.leaf 0, .leaf 0], .node [.leaf 0, .leaf 1]]] := by rfl
+example : NotNested1 exEdges := by intro axes h; cases h; decide
+
+-- `iterate_bins_once`, `iterate_cell_context`, `map_bins_shape`: a histogram of two cells with contexts
+def exH : Hist Int (Value Int) := ⟨.flat [0, 2, 4], .node [.leaf (.pair 7 [none, none]), .leaf (.bare 8)]⟩
+theorem exH_valid : ValidEdges exH.edges := by
+  refine ⟨by simp [exH, Edges.axes], ?_⟩
+  intro arr h
+  simp only [exH, Edges.axes, List.mem_cons, List.not_mem_nil, or_false] at h
+  subst h
+  exact ⟨by decide, by unfold C06.StrictInc; decide⟩
+example : NArr.HasShape (dimsOf exH.edges.axes) exH.bins := by simp [exH, dimsOf, Edges.axes, NArr.HasShape]
+example : (iterateBinsOne ["bin", "bins"] (fun _ => true) (fun _ _ => (.ok (.str "s") : Except (Exc Unit) V))
+    (encEdges V.int) (.hist exH none)).out.length = 2 := by decide
+example : kBin ["bin", "bins"] ≠ kBins ["bin", "bins"] := by decide
+example : ((mapBinsOne ["bin", "bins"] (fun c => (⟨[c, c], none⟩ : Trace (Value Int) Unit)) (fun _ => true) true
+    (.hist exH none)).out.map (fun fv => match fv with | .hist h _ => some h.bins | .plain _ => none)) =
+    [some (.node [.leaf (.bare 7), .leaf (.bare 8)]), some (.node [.leaf (.bare 7), .leaf (.bare 8)])] := by rfl
+
+end Examples
+
+end Lena.C11
